@@ -75,12 +75,16 @@ def generate(tape, tier="quick"):
             elif m == "rule" and c["outputs"]:
                 i["info"] = ["from_output", tape.choice(c["outputs"])["name"]]
                 i["units"] = None
+                if tape.chance(1, 3):        # rule takes only the grid; units and time are given as values
+                    i["rule_units"] = tape.choice(["m", "km"])
             elif m == "connect":
                 i["info"] = "connect"
         for o in c["outputs"]:
             m = tape.weighted([("known", 6), ("connect", 2), ("rule", 3)])
             if m == "rule" and c["inputs"]:
                 o["info"] = ["from_input", tape.choice(c["inputs"])["name"]]
+                if tape.chance(1, 3):
+                    o["rule_units"] = tape.choice(["m", "km"])
             elif m == "connect":
                 o["info"] = "connect"
             if any(i["pull"] for i in c["inputs"]) and tape.chance(1, 3):
@@ -91,6 +95,7 @@ def generate(tape, tier="quick"):
             elif kind == "callback":
                 o["okind"] = "callback"
                 o["info"] = "known"
+                o.pop("rule_units", None)
     for ln in links:
         if comps[ln["src"][0]]["outputs"][ln["src"][1]].get("okind") in ("static", "callback"):
             ln.pop("chain", None)        # time adapters need timed publications / notifications
